@@ -226,4 +226,34 @@ SEMZOO = [
     "long long n1 = 1u + 1ul + 1lu + 1ull + 1LL + 0x1UL + 0b101 + 017 + 0 + 0x0;\ndouble n2 = 0x1p-3 + 0x.8p1 + 1.5f + 1.e3L + .5 + 1e+3 + 1E-2f;\nint n3 = 'a' + '\\n' + '\\x41' + '\\377' + L'a' + '\\'' + '\\\\' + '\"' + '\\0' + 'ab';\nint n4(void){ return -1 - -1 + - -1 + 1 - 1u + -0x10 + -010 + (1.0 > 0); }",
     # typedef scoping
     "typedef int T; typedef T *PT; typedef T AT[3]; typedef T FT(T);\nT t1(T a, PT p, AT arr, FT *f){ T T2 = a; { typedef char T; T c = 1; T2 += c + sizeof(T); } return T2 + *p + arr[0] + f(a) + sizeof(T); }\nint t2(void){ int T = 2; return T * T; }\nstruct TS { T T; T u; }; T t3(struct TS s){ return s.T + s.u; }",
+    # round 6: constructs whose meaning the compiler decides (storage + function specifiers on used functions, empty else blocks,
+    # long strings, tags redefined in inner scopes, comma expressions as initialiser values, pragma blocks, ...)
+    # storage class together with function specifiers, the functions being USED (an unused static inline leaves no trace)
+    "static inline int sq(int x){ return x * x; }\nextern inline int cube(int x){ return x * x * x; }\ninline int dbl(int x){ return x + x; }\nstatic int keep(int x){ return x - 1; }\nint use(int v){ return sq(v) + cube(v) + dbl(v) + keep(v); }\nstatic _Noreturn void die(void){ for (;;) ; }\nvoid call_die(int c){ if (c) die(); }",
+    # empty blocks as else branches, dangling-else shapes
+    "int e1(int a, int b, int x, int y){ if (a) if (b) x = 1; else { } else y = 2; return x + y; }\nint e2(int a, int b, int x){ if (a) { if (b) x = 1; } else x = 2; return x; }\nint e3(int a, int b, int x){ if (a) if (b) x = 1; else x = 2; return x; }\nint e4(int a, int x){ if (a) { } else { x = 3; } while (a) { } for (;;) { break; } do { } while (0); return x; }\nint e5(int a, int b, int x){ if (a) { ; } else if (b) { } else { x = 4; } return x; }",
+    # long string literals with escapes around every multiple of 8 between 56 and 80 characters
+    "char l1[] = \"0123456789012345678901234567890123456789012345678901234567890\\x41\\x42\\101\\102\\n\\t0123456789\";\nchar l2[] = \"01234567890123456789012345678901234567890123456789012345678901\\x41\\x42rest of a long enough string to pass seventy-two characters\";\nchar l3[] = \"aaaaaaaaaaaaaaaaaaaaaaaaaaaaaaaaaaaaaaaaaaaaaaaaaaaaaaaaaaaaaaa\\\\\\\"bbbbbbbbbbbbbbbbbbbbbbbbbbbbbbbbbbbbbbbbbbbbbbbbbbbbbbbbbbbbb\\0001c\";\nint ls(void){ return sizeof l1 + sizeof l2 + sizeof l3; }",
+    # the same tag defined in different scopes
+    "struct S { int a; };\nint t1(void){ struct S { char c[9]; } in; struct S *p = &in; return sizeof(struct S) + sizeof in + sizeof *p; }\nint t2(void){ return sizeof(struct S); }\nint t3(void){ enum E { A = 5 } e = A; { enum E { A = 7, B } f = B; return e + f + A; } }\nint t4(void){ union U { int i; char c[8]; } u; { union U { short s; } v; return sizeof u + sizeof v; } }",
+    # comma expressions and assignments as initialiser values, designated and positional
+    "struct D { int x, y, z; };\nint d1(int a){ struct D d = { .x = (a++, a + 1), .z = 9 }; return d.x + d.y + d.z + a; }\nint d2(int a){ int arr[3] = { (a++, a), [2] = (a += 2, a * 2) }; return arr[0] + arr[1] + arr[2]; }\nint d3(int a){ struct D d = { (a, 1), (a = 5), a ? 1 : 2 }; return d.x + d.y + d.z; }",
+    # pragmas in front of sub-statements and in blocks
+    "int p1(int a, int b, int x){ if (a) {\n#pragma foo\n if (b) x = 1; } else x = 2; return x; }\nint p2(int a, int x){ while (a--)\n#pragma unroll\n x++; return x; }\nint p3(int a, int b, int x){ if (a)\n#pragma p\n if (b) x = 1; else x = 2; return x; }\nint p4(int x){\n#pragma one\n#pragma two\n { x++; }\n return x; }",
+    # labels, case ranges of statements, fall through
+    "int s1(int x){ int r = 0; switch (x) { case 1: r++; case 2: r += 2; break; case 3: case 4: { r = 7; } default: r--; } return r; }\nint s2(int x){ int r = 0; skip: ; r++; if (r < x) goto skip; end: return r; }\nint s3(int x){ switch (x) case 1: x = 5; return x; }\nint s4(int x){ switch (x) { default: x = 1; break; case 0: x = 2; } return x; }",
+    # loops: every for clause absent / present, declarations in for-init, nested loops, continue
+    "int f1(int n){ int s = 0; for (int i = 0; i < n; i++) for (int j = i; j < n; j++) { if (j & 1) continue; s += j; } return s; }\nint f2(int n){ int i = 0; for (; i < n;) i++; for (;;) { if (i-- < 0) break; } for (i = 0; ; i++) if (i > n) break; return i; }\nint f3(int n){ int s = 0, i; for (i = 0, s = 1; i < n; i++, s *= 2) ; return s; }",
+    # pointers, arrays, function pointers in declarations with initialisers
+    "int g0[4] = {1, 2, 3, 4}; int *g1 = g0 + 1; int (*g2)[4] = &g0; int *g3[2] = { g0, g0 + 2 }; int **g4 = g3;\nint gf(int a){ return a; } int (*g5)(int) = gf; int (*g6[2])(int) = { gf, gf }; int (*(*g7)[2])(int) = &g6;\nint gu(void){ return *g1 + (*g2)[2] + *g3[1] + **g4 + g5(1) + g6[1](2) + (*g7)[0](3); }",
+    # integer promotions, casts, sizeof of expressions vs types
+    "int c1(unsigned char u, signed char s, short h, long l){ return (u << 1) + (s >> 1) + (int)h * (long)2 + (char)l + (unsigned)u / 3u + sizeof(u + s) + sizeof (long) + sizeof u; }\nlong c2(int a, int b){ return (long)a * b + (long)(a * b) + (a < b) + (a == b) * 2L + -a % b; }\ndouble c3(int a, float f){ return a / 2 + a / 2.0 + f * a + (double)a / 3 + (int)f % 2; }",
+    # typedefs of function and array types, qualified
+    "typedef int F(int); typedef int A3[3]; typedef const char *CS; typedef struct N { struct N *next; int v; } N; typedef N *PN;\nF h1; int h1(int x){ return x; } A3 h2 = {1, 2, 3}; CS h3 = \"cs\"; N h4 = { 0, 4 }; PN h5 = &h4;\nint h6(void){ F *fp = h1; const A3 *pa = &h2; return fp(1) + (*pa)[1] + h3[0] + h5->v + sizeof(A3) + sizeof(N); }",
+    # conditional expressions with side effects, logical operators short-circuit
+    "int q1(int a, int b){ return a ? b++ : b--; }\nint q2(int a, int b, int c){ return a && b || c && !a; }\nint q3(int a, int b){ return (a || (b = 2)) + (a && (b = 3)) + b; }\nint q4(int a, int b, int c){ return a ? b ? 1 : 2 : c ? 3 : 4; }\nint q5(int a, int b){ return (a > b ? a : b) - (a < b ? a : b); }",
+    # compound assignment with every operator, increments in subscripts
+    "int o1(int a, int b){ a += b; a -= b; a *= b; a /= b; a %= b; a <<= 2; a >>= 1; a &= b; a |= b; a ^= b; return a; }\nint o2(int *p, int i){ p[i++] = i; p[--i] += 2; *p++ = 1; (*p)++; ++*p; return *--p + p[i]; }\nint o3(int a){ return a++ + ++a - a-- - --a; }",
+    # bit-fields and unions observed through layout
+    "struct B { unsigned a:1, b:2, :0, c:3; signed d:4; int e; } bb = { 1, 2, 3, -1, 5 };\nunion UU { struct { unsigned lo:4, hi:4; } n; unsigned char byte; } uu = { { 3, 4 } };\nint bf(void){ bb.b = 1; uu.n.hi = 2; return bb.a + bb.b + bb.c + bb.d + bb.e + uu.byte + sizeof bb + sizeof uu; }",
 ]
